@@ -715,7 +715,8 @@ class Interp:
                 continue
             if i < len(params):
                 v = self.eval(a, st, fr)
-                args[params[i]] = self._ref_of(a, v, st, fr) or v
+                r = self._ref_of(a, v, st, fr)
+                args[params[i]] = (r if r is not None and r.obj is not None else None) or v   # (references to the caller's locals do not cross frames)
         extra = []
         for kw in call.keywords:
             if kw.arg is None:
@@ -730,7 +731,8 @@ class Interp:
                 continue
             if kw.arg in callee.params or kw.arg in callee.kwonly:
                 v = self.eval(kw.value, st, fr)
-                args[kw.arg] = self._ref_of(kw.value, v, st, fr) or v
+                r = self._ref_of(kw.value, v, st, fr)
+                args[kw.arg] = (r if r is not None and r.obj is not None else None) or v
             else:
                 extra.append(kw.arg)
         if extra:
@@ -755,6 +757,19 @@ class Interp:
         if isinstance(s, ast.Expr):
             self.eval(s.value, st, fr, effects=True)
             return [(st, None)]
+        if isinstance(s, ast.Assign) and isinstance(s.value, ast.IfExp) and self.truth(s.value.test, st, fr) is None:
+            self._quiet += 1
+            try:
+                va, vb = self.eval(s.value.body, st, fr), self.eval(s.value.orelse, st, fr)
+            finally:
+                self._quiet -= 1
+            if isinstance(va, (BoundV, FuncV)) and isinstance(vb, (BoundV, FuncV)):
+                # `f = self.a if cond else self.b`: which code runs later depends on the condition -- one path each
+                outs = []
+                for st1, truth, forked in self.branch(s.value.test, st, fr):
+                    s2 = ast.copy_location(ast.Assign(targets=s.targets, value=(s.value.body if truth else s.value.orelse), type_comment=None), s)
+                    outs.extend(self._exec_stmt(s2, st1, fr))
+                return outs
         if isinstance(s, ast.Assign):
             # table lookup with an enum-valued key that is not decided yet: one path per member (the table is a case split)
             look = s.value
@@ -1408,6 +1423,42 @@ class Interp:
         """RefV when `node` denotes a mutable container held in an attribute of a model object (or is itself such an alias)."""
         if isinstance(node, ast.Name) and isinstance(st.env.get(node.id), RefV):
             return st.env[node.id]
+        if isinstance(node, ast.Name) and isinstance(v, ListV) and v.fresh and v.kind in ("list", "set") and node.id in st.env:
+            # `x = y` where y is a local list that is bound exactly once in the whole (outermost) function: x is the same list
+            host = fr.func
+            while getattr(host, "parent", None) is not None:
+                host = host.parent
+            stores = [n for n in ast.walk(host.node) if isinstance(n, ast.Name) and n.id == node.id and isinstance(n.ctx, ast.Store)]
+            if len(stores) == 1:
+                # ... and that one binding is executed once per call (not inside a loop, where each iteration makes a new list)
+                in_loop = any(isinstance(lp, (ast.For, ast.While, ast.ListComp, ast.SetComp, ast.GeneratorExp, ast.DictComp)) and any(x is stores[0] for x in ast.walk(lp))
+                              for lp in ast.walk(host.node))
+                if not in_loop:
+                    return RefV(None, node.id)
+        if isinstance(node, ast.IfExp):
+            self._quiet += 1
+            try:
+                t = self.truth(node.test, st, fr)
+            finally:
+                self._quiet -= 1
+            if t is not None:
+                return self._ref_of(node.body if t else node.orelse, v, st, fr)
+            return None
+        # an entry of a table of local lists:  run_list = lists_by_state[state] / lists_by_state.get(state)
+        dn = kn = None
+        if isinstance(node, ast.Subscript) and not isinstance(node.slice, ast.Slice):
+            dn, kn = node.value, node.slice
+        elif isinstance(node, ast.Call) and isinstance(node.func, ast.Attribute) and node.func.attr == "get" and node.args and not node.keywords:
+            dn, kn = node.func.value, node.args[0]
+        if dn is not None:
+            self._quiet += 1
+            try:
+                dv = self.eval(dn, st, fr)
+                ent = self._dict_entry(dv, self.eval(kn, st, fr)) if isinstance(dv, DictV) else None
+            finally:
+                self._quiet -= 1
+            if ent not in (None, False) and ent[2] and ent[2] in st.env:
+                return RefV(None, ent[2])
         if isinstance(node, ast.Attribute) and isinstance(node.ctx, ast.Load):
             t = None
             if isinstance(v, (ListV, CollV)) or (isinstance(v, Unk) and v.typ and v.typ[0] in ("list", "set", "dict")):
@@ -1649,7 +1700,8 @@ class Interp:
                 v = self.value_for_type(f"{base.name}.{e.attr}", t)
                 st.heap[k] = v
                 return v
-            if isinstance(base, (ListV, CollV, DictV)) and e.attr in MUTATORS and isinstance(e.value, (ast.Name, ast.Attribute)):
+            if (isinstance(base, (ListV, CollV, DictV)) or (isinstance(base, Unk) and base.typ and base.typ[0] in ("list", "set", "dict"))) \
+                    and e.attr in MUTATORS and isinstance(e.value, (ast.Name, ast.Attribute)) and isinstance(e.ctx, ast.Load):
                 return BoundV(op=e.attr, ref=e.value)
             tag = f"{self.path_of(base, ast.unparse(e.value))}.{e.attr}"
             return Unk(tag, fr.ft.type_of(e))
@@ -1732,7 +1784,7 @@ class Interp:
                         ents = None
                         break
                     vv = self.eval(v, st, fr, effects)
-                    ref = v.id if isinstance(v, ast.Name) and isinstance(vv, ListV) else None
+                    ref = v.id if isinstance(v, ast.Name) and isinstance(vv, ListV) and v.id in st.env and vv.kind in ("list", "set") else None
                     ents.append((kv, vv, ref))
                 if ents is not None:
                     return DictV(ents)
@@ -2104,6 +2156,12 @@ class Interp:
         for kw in e.keywords:
             if kw.arg:
                 argvals[kw.arg] = self.eval(kw.value, st, fr, effects)
+            else:
+                dv = self.eval(kw.value, st, fr, effects)
+                if isinstance(dv, DictV):
+                    for k, v, _r in dv.entries:
+                        if isinstance(k, Const) and isinstance(k.v, str):
+                            argvals[k.v] = v
         recv = None
         cname = ast.unparse(f)
         if isinstance(f, ast.Attribute):
